@@ -23,7 +23,8 @@ RULE = ('Direct calls of the long-only sizer on a real broker: 1-6 assets from a
         '(1-b)*E, keys preserved, all-zero -> all-zero. Plus an exhaustive small grid. Non-trivial = >=2 '
         'positive weights, fee>0 or buffer>0, and some alloc/p with fractional part >= 0.5 (floor != round), '
         'or a rejected invalid input.'
-        " Round-4/5 reach: the broker's fee model replaced, cash withdrawn and the sizer's cash_buffer_percentage re-set between calls on one sizer; QuantTradingSystem-built sizers given both sizing keywords; exact clause (quantity == reference sizing in exact rationals unless a quotient is within 1e-12 of a whole number) incl. allocations that are exact multiples of the price; csv part: files in any row order with missing cells, a first bar without an Open, a source quoting a spread, a first-listed source whose history starts later.")
+        " Round-4/5 reach: the broker's fee model replaced, cash withdrawn and the sizer's cash_buffer_percentage re-set between calls on one sizer; QuantTradingSystem-built sizers given both sizing keywords; exact clause (quantity == reference sizing in exact rationals unless a quotient is within 1e-12 of a whole number) incl. allocations that are exact multiples of the price; csv part: files in any row order with missing cells, a first bar without an Open, a source quoting a spread, a first-listed source whose history starts later."
+        " Round-10 reach: `broker_other_feed` (the broker's own handler quotes x1.75; the sizer and the trading system are given another) in a third of the random cases; csv part: the first-listed, later-starting source may raise instead of answering NaN before its coverage, and the handler is asked 400, 30, 3 and 1 days earlier.")
 ASSUMPTIONS = [
     'fee rates with commission + tax <= 1 (a fee above 100% has no meaningful budget)',
     'weight sums either <= 1e-9 (left unscaled by the code, only upper bounds asserted) or >= 5e-5',
@@ -56,6 +57,13 @@ def run_case(case):
     inv = case.get('invalid')
     weights = dict(case['weights'])
     q, b, dh = build(case)
+    if case.get('broker_other_feed'):
+        # the broker marks positions and fills orders on a feed of its own, quoting other prices; the sizer (and the
+        # trading system that builds it) is given this handler
+        bdh, dh = dh, kit.StubDH()
+        dh.q = dict(bdh.q)
+        for a_, (bid_, ask_) in list(bdh.q.items()):
+            bdh.q[a_] = (bid_ * 1.75, ask_ * 1.75)
     if inv == 'nan_price':
         dh.q.pop(case['nan_asset'], None)
     buf = case['buffer']
@@ -93,7 +101,7 @@ def run_case(case):
             return Result(['rejected_' + inv], nontrivial=True)
         raise Violation('%s was accepted: weights %r prices %r -> %r' % (inv, weights, dh.q, out))
 
-    all_cls, any_nt = [], False
+    all_cls, any_nt = (['broker_on_another_feed'] if case.get('broker_other_feed') else []), False
     fee_now = case['fee']
     vectors = [weights] + [dict(w) for w in case.get('more_weights', [])]
     for call_no, weights in enumerate(vectors):
@@ -267,6 +275,7 @@ def cases(draw):
             sub = assets if draw(st.booleans()) else draw(st.lists(st.sampled_from(assets), min_size=1, unique=True))
             case['more_weights'].append({a: _weight(draw) for a in sub})
     case['via_qts'] = draw(st.sampled_from([False, False, True]))
+    case['broker_other_feed'] = draw(st.sampled_from([False, False, True]))
     case['both_kwargs'] = draw(st.booleans())      # a shared configuration carrying both sizing keywords
     inv = draw(st.sampled_from([None] * 12 + ['neg_weight', 'buffer_low', 'buffer_high', 'nan_price']))
     if inv == 'neg_weight':
@@ -352,8 +361,10 @@ def run_csv(case, long_only=True):
                     d_ = D.date(r[0], r[1], r[2]) + D.timedelta(days=shift)
                     later[s].append([d_.year, d_.month, d_.day] + [None if x is None else round(x * 1.5, 4) for x in r[3:]])
             market.write_market(later, path + '_later')
-            sources = [q.CSVDailyBarDataSource(path + '_later', q.Equity, adjust_prices=case['adjust'],
-                                               csv_symbols=list(syms)), ds]
+            first_src = q.CSVDailyBarDataSource(path + '_later', q.Equity, adjust_prices=case['adjust'], csv_symbols=list(syms))
+            if case.get('late_source_raises'):
+                first_src = kit.CoverageSource(first_src)        # ... and which refuses instants before its coverage
+            sources = [first_src, ds]
         if case.get('first_source_other_symbols'):
             # a first-listed source that does not carry these symbols at all (it raises for them): the search goes on
             market.write_market({'ZZZ': [r[:3] + [9.0, 9.0, 9.0] for r in next(iter(syms.values()))]}, path + '_zzz')
@@ -394,7 +405,7 @@ def run_csv(case, long_only=True):
                     late_quotes = True
             # the handler has answered bid / mid queries a few days earlier (as a broker marking positions does)
             for s in syms:
-                for back in (3, 1):
+                for back in ((400, 30, 3, 1) if case.get('late_source_raises') else (3, 1)):
                     dh.get_asset_latest_bid_price(t - pd.Timedelta(days=back), 'EQ:' + s)
                     dh.get_asset_latest_mid_price(t - pd.Timedelta(days=back), 'EQ:' + s)
         unpriced = [a for a in weights if math.isnan(price[a])]
@@ -456,6 +467,8 @@ def run_csv(case, long_only=True):
         cls.append('files_' + order)
     if case.get('late_source_first'):
         cls.append('first_listed_source_starts_later')
+        if case.get('late_source_raises'):
+            cls.append('first_listed_source_refuses_instants_before_its_coverage')
         if late_quotes:
             cls.append('later_starting_source_quotes_by_now')
     if case.get('second_source_also_quotes'):
@@ -516,7 +529,7 @@ def csv_cases(draw, long_only=True):
     return {'file_order': draw(st.sampled_from(['sorted', 'reversed', 'shuffled'])),
             'spread': draw(st.sampled_from([0.0, 0.0, 0.02, 0.3])),
             'late_source_first': draw(st.sampled_from([False, False, True])),
-            'late_shift': draw(st.sampled_from([91, 4, 2])),
+            'late_shift': draw(st.sampled_from([91, 4, 2])), 'late_source_raises': draw(st.booleans()),
             'second_source_also_quotes': draw(st.sampled_from([False, False, True])),
             'first_source_other_symbols': draw(st.sampled_from([False, False, True])),
             'handler_universe': draw(st.sampled_from([None, None, 'later', 'empty'])),
